@@ -1234,7 +1234,19 @@ class TaskScenario(ScenarioData):
         if not alternative_resources:
             return primary_resources
 
-        # If no primaries, use alternatives
+        # The alternatives are candidates, not a team: exactly one of them is used, the one
+        # that would complete the task first (the first listed among equals)
+        best_alternative: Optional[Any] = None
+        alternative_end: Optional[datetime] = None
+        for candidate in alternative_resources:
+            candidate_end = self._estimateCompletionTime([candidate], effort)
+            if candidate_end is not None and (alternative_end is None or candidate_end < alternative_end):
+                best_alternative, alternative_end = candidate, candidate_end
+        if best_alternative is None:
+            best_alternative = alternative_resources[0]
+        alternative_resources = [best_alternative]
+
+        # If no primaries, use the alternative
         if not primary_resources:
             return alternative_resources
 
@@ -1242,7 +1254,6 @@ class TaskScenario(ScenarioData):
         # Calculate when each path would complete the task
 
         primary_end = self._estimateCompletionTime(primary_resources, effort)
-        alternative_end = self._estimateCompletionTime(alternative_resources, effort)
 
         # Choose the path that finishes earlier
         if alternative_end is not None and (primary_end is None or alternative_end < primary_end):
